@@ -228,6 +228,17 @@ func (c *FnCtx) staticTypeOfModifies(e Expr, names []string, ptypes []types.Type
 		if v, ok := obj.(*types.Var); ok {
 			return v.Type()
 		}
+	case *EIndex:
+		bt := c.staticTypeOfModifies(x.X, names, ptypes)
+		if bt == nil {
+			return nil
+		}
+		switch tt := types.Unalias(bt).Underlying().(type) {
+		case *types.Slice:
+			return tt.Elem()
+		case *types.Map:
+			return tt.Elem()
+		}
 	}
 	return nil
 }
